@@ -11,6 +11,13 @@ Correspondence
 Oracle / partial (runtime, shipped families): shape, same seed => identical, different seeds =>
 different, PIT values of every dimension ~ U(0,1) and pairs of PIT columns ~ product measure
 within distribution-free bounds at error probability 1e-12 per comparison.
+  (D) joint models over EVERY shipped family (Normal, von Mises with vector parameters through
+      ConditionalDistribution - compared modulo 2 pi -, LogNormalNormFit, ScipyDistribution subclasses, ...):
+      PIT with independently evaluated per-row parameters; n in {1,2,3} (shape, reproducibility; 3-D chains);
+      random_state None / int / Generator; seed pairs (s, t); second model object; object re-use.
+  (E) univariate small n, random_state=None, seed pairs.
+  (F) models FITTED to data (predefined descriptions, 2-D and 3-D), then sampled: per-row conditional law
+      evaluated from the fitted parameters the model reports.
 """
 import math
 import warnings
@@ -33,6 +40,93 @@ def ks_uniform(u):
     n = len(u)
     i = np.arange(1, n + 1)
     return float(max(np.max(i / n - u), np.max(u - (i - 1) / n)))
+
+
+def seed_partners(rng, seed):
+    """seeds t != seed with 0 <= t < 2**32 (valid for the legacy RandomState scipy builds from an int): the
+    neighbour, one with a single far bit flipped, an unrelated one"""
+    out = {seed + 1 if seed < 2**32 - 1 else seed - 1, seed ^ (1 << int(rng.integers(1, 32))),
+           int(rng.integers(0, 2**32))}
+    out.discard(seed)
+    return sorted(out)
+
+
+def pit_failures(ck, U, conds, x=None):
+    """distribution-free tests of a matrix of PIT values: every column ~ U(0,1) (DKW), pairs of columns ~ product
+    measure on a 4x4 partition (Hoeffding per cell, union over the 16 cells). With the sample `x`: the PIT values of a
+    conditional dimension are U(0,1) GIVEN the conditioning value of their row, hence also within every group of rows
+    selected by the conditioning column alone: DKW within the quartile groups of that column."""
+    n, n_dim = U.shape
+    bad = []
+    eps = dkw_eps(n)
+    if not np.all(np.isfinite(U)):
+        return [("drawn_from_conditional_given_same_row", "PIT values are not finite")]
+    if x is not None:
+        for i in range(n_dim):
+            if conds[i] is None:
+                continue
+            order = np.argsort(x[:, conds[i]], kind="stable")
+            for q, rows in enumerate(np.array_split(order, 4)):
+                d = ks_uniform(U[rows, i])
+                ck.hyp_checked += 1
+                if d > dkw_eps(len(rows)):
+                    bad.append(("drawn_from_conditional_given_same_row",
+                                f"dimension {i}, rows in group {q} of the conditioning column {conds[i]} (values "
+                                f"{x[rows[0], conds[i]]:.4g}..{x[rows[-1], conds[i]]:.4g}): PIT KS {d:.4f} > "
+                                f"{dkw_eps(len(rows)):.4f}"))
+                    break
+    for i in range(n_dim):
+        d = ks_uniform(U[:, i])
+        ck.hyp_checked += 1
+        if d > eps:
+            bad.append(("drawn_from_conditional_given_same_row",
+                        f"dimension {i} (conditional on {conds[i]}): PIT KS {d:.4f} > {eps:.4f}"))
+    t = math.sqrt(math.log(2 * 16 / DELTA) / (2 * n))
+    for i in range(n_dim):
+        for k in range(i + 1, n_dim):
+            H, _, _ = np.histogram2d(U[:, i], U[:, k], bins=4, range=[[0, 1], [0, 1]])
+            dev = float(np.max(np.abs(H / n - 1 / 16)))
+            ck.hyp_checked += 1
+            if dev > t + 2 * eps:
+                bad.append(("rosenblatt_columns_independent", f"dims {i},{k}: cell deviation {dev:.4f} > {t + 2*eps:.4f}"))
+    return bad
+
+
+def none_failures(draw, shape):
+    """random_state=None: requested shape, finite values, two draws differ (fresh entropy each time)"""
+    a = np.asarray(draw(None))
+    b = np.asarray(draw(None))
+    if a.shape != shape or b.shape != shape:
+        return [("none_shape", f"random_state=None: shape {a.shape} / {b.shape}, expected {shape}")], a
+    if not (np.all(np.isfinite(a)) and np.all(np.isfinite(b))):
+        return [("none_finite", "random_state=None: sample contains non-finite values")], a
+    if np.array_equal(a, b):
+        return [("none_draws_differ", f"two draws with random_state=None are identical: {a.ravel()[:4].tolist()}")], a
+    return [], a
+
+
+def reproducibility_failures(rng, build, n, seed, first):
+    """`first` = build().draw_sample(n, random_state=seed) drawn by the caller on another object. Checks on a SECOND
+    model object: an earlier draw (other seed, other size) does not influence a later seeded draw; identically
+    seeded Generators give identical samples on two different objects; int seed repeats; seed pairs (s, t) differ."""
+    bad = []
+    m1, m2 = build(), build()
+    m1.draw_sample(n + 1, random_state=seed ^ 5)          # earlier draws on the same object: another size,
+    m1.draw_sample(n, random_state=seed ^ 3)              # the same size with another seed
+    again = np.asarray(m1.draw_sample(n, random_state=seed))
+    if not np.array_equal(first, again, equal_nan=True):
+        bad.append(("reproduces_on_second_object_after_earlier_draw",
+                    f"int seed {seed}: draw on a second model object after an earlier draw differs from the first draw"))
+    g1 = np.asarray(m1.draw_sample(n, random_state=np.random.default_rng(seed)))
+    g2 = np.asarray(m2.draw_sample(n, random_state=np.random.default_rng(seed)))
+    if g1.shape != first.shape or not np.array_equal(g1, g2, equal_nan=True):
+        bad.append(("generator_reproduces_across_objects",
+                    f"identically seeded Generators (seed {seed}) on two model objects give different samples"))
+    for t in seed_partners(rng, seed):
+        if np.array_equal(first, np.asarray(m2.draw_sample(n, random_state=t))):
+            bad.append(("different_seeds_differ", f"seeds {seed} and {t} give identical samples"))
+            break
+    return bad
 
 
 # --------------------------------------------------------------------------- (A)
@@ -103,6 +197,14 @@ def process_exact(ck, case):
         other = np.asarray(model.draw_sample(n, random_state=seed + 1))
         if np.array_equal(other, again):
             bad.append(("different_seeds_differ", f"seeds {seed} and {seed+1} give identical samples"))
+        # object re-use: after the draw with another seed the SAME object reproduces the first sample ...
+        rs2 = seed if case["rs"] == "int" else np.random.default_rng(seed)
+        if not np.array_equal(got, np.asarray(model.draw_sample(n, random_state=rs2))):
+            bad.append(("reproduces_after_earlier_draw_on_same_object", f"seed {seed} ({case['rs']})"))
+        # ... and so does a second object; seed pairs beyond s/s+1
+        if seed < 2**32:
+            bad += reproducibility_failures(np.random.default_rng(seed), desc.build, n, seed, again)
+            ck.count("A_second_object_and_seed_pairs")
     for pred, detail in bad:
         ck.fail({"entry": "GlobalHierarchicalModel.draw_sample", "predicate": pred}, case, detail)
     if ans[0] != "OK":
@@ -195,49 +297,83 @@ def univariate_families(rng):
         ("ExpWeibull", ExponentiatedWeibullDistribution(10 ** u(-0.3, 0.5), u(0.8, 2.5), u(0.7, 4))),
         ("GenGamma", GeneralizedGammaDistribution(u(0.8, 3), u(0.8, 2.5), u(0.3, 2))),
         ("VonMises", VonMisesDistribution(u(0.3, 4.0), u(0.5, 5.5))),
+        ("VonMises", VonMisesDistribution(u(0.3, 4.0), u(-5.5, -0.5))),
+        ("LogNormalNormFit", EXT["LogNormalNormFit"][0](u(2.0, 8.0), u(0.5, 2.0))),
+        ("ScipyGamma", EXT["ScipyGamma"][0](u(0.8, 4.0), float(rng.choice([0.0, 0.5])), u(0.5, 2.0))),
+        ("ScipyGumbel", EXT["ScipyGumbel"][0](u(-2.0, 5.0), u(0.5, 2.0))),
     ]
 
 
+def univariate_from_case(case):
+    return EXT[case["family"]][0](**case["parameters"])
+
+
+def univariate_pit(name, dist, x):
+    if name == "VonMises":
+        # samples are wrapped; compare modulo 2 pi on the interval the cdf is defined on
+        mu = dist.parameters["mu"]
+        xx = np.mod(x - mu + np.pi, 2 * np.pi) + mu - np.pi
+        return np.mod(np.asarray(dist.cdf(xx)), 1.0)
+    return np.asarray(dist.cdf(x))
+
+
 def process_univariate(ck, rng, n):
-    eps = dkw_eps(n)
     for name, dist in univariate_families(rng):
         seed = int(rng.integers(0, 2**31))
         case = {"part": "C", "family": name, "parameters": {k: float(v) for k, v in dist.parameters.items()},
                 "n": n, "seed": seed}
-        ck.case(case, nontrivial=True, sample=False)
-        ck.count("part=C-univariate")
-        x = np.asarray(dist.draw_sample(n, random_state=seed))
-        bad = []
-        if x.shape != (n,):
-            bad.append(("univariate_shape", f"shape {x.shape} for n={n}"))
-        else:
-            if name == "VonMises":
-                # samples are wrapped; compare modulo 2 pi on the interval the cdf is defined on
-                mu = dist.parameters["mu"]
-                xx = np.mod(x - mu + np.pi, 2 * np.pi) + mu - np.pi
-                u = np.asarray(dist.cdf(xx))
-                u = np.mod(u, 1.0)
-            else:
-                u = np.asarray(dist.cdf(x))
-            d = ks_uniform(u)
+        process_univariate_case(ck, case, dist)
+
+
+def process_univariate_case(ck, case, dist=None):
+    name, n, seed = case["family"], case["n"], case["seed"]
+    dist = univariate_from_case(case) if dist is None else dist
+    eps = dkw_eps(n)
+    ck.case(case, nontrivial=True, sample=False)
+    ck.count("part=C-univariate")
+    ck.count("C_family=" + name)
+    x = np.asarray(dist.draw_sample(n, random_state=seed))
+    bad = []
+    if x.shape != (n,):
+        bad.append(("univariate_shape", f"shape {x.shape} for n={n}"))
+    else:
+        d = ks_uniform(univariate_pit(name, dist, x))
+        ck.hyp_checked += 1
+        if not d <= eps:
+            bad.append(("univariate_sample_matches_cdf", f"{name}: KS distance {d:.4f} > {eps:.4f} (n={n})"))
+        g1 = np.asarray(dist.draw_sample(n, random_state=np.random.default_rng(seed)))
+        g2 = np.asarray(dist.draw_sample(n, random_state=np.random.default_rng(seed)))
+        if not (np.array_equal(x, np.asarray(dist.draw_sample(n, random_state=seed))) and np.array_equal(g1, g2)):
+            bad.append(("same_seed_reproduces", f"{name}"))
+        if np.array_equal(x, np.asarray(dist.draw_sample(n, random_state=seed + 1))):
+            bad.append(("different_seeds_differ", f"{name}"))
+        for t in seed_partners(np.random.default_rng(seed), seed):
+            if np.array_equal(x, np.asarray(dist.draw_sample(n, random_state=t))):
+                bad.append(("different_seeds_differ", f"{name}: seeds {seed} and {t} give identical samples"))
+                break
+        # random_state=None: shape, finiteness, two draws differ, and the draw follows the cdf
+        nb, xn = none_failures(lambda r: dist.draw_sample(n, random_state=r), (n,))
+        ck.count("C_random_state_none")
+        if not nb:
+            dn = ks_uniform(univariate_pit(name, dist, xn))
             ck.hyp_checked += 1
-            if d > eps:
-                bad.append(("univariate_sample_matches_cdf", f"{name}: KS distance {d:.4f} > {eps:.4f} (n={n})"))
-            g1 = np.asarray(dist.draw_sample(n, random_state=np.random.default_rng(seed)))
-            g2 = np.asarray(dist.draw_sample(n, random_state=np.random.default_rng(seed)))
-            if not (np.array_equal(x, np.asarray(dist.draw_sample(n, random_state=seed))) and np.array_equal(g1, g2)):
-                bad.append(("same_seed_reproduces", f"{name}"))
-            if np.array_equal(x, np.asarray(dist.draw_sample(n, random_state=seed + 1))):
-                bad.append(("different_seeds_differ", f"{name}"))
-        for pred, detail in bad:
-            ck.fail({"entry": "Distribution.draw_sample", "predicate": pred, "family": name}, case, detail)
+            if not dn <= eps:
+                nb.append(("univariate_sample_matches_cdf", f"{name}, random_state=None: KS distance {dn:.4f} > {eps:.4f}"))
+        bad += nb
+    for pred, detail in bad:
+        ck.fail({"entry": "Distribution.draw_sample", "predicate": pred, "family": name}, case, detail)
 
 
-def process_joint_stat(ck, rng, n):
+def joint_stat_case(rng, n):
     m = models.random_fam_model(rng, n_dim=int(rng.choice([2, 3])))
-    model = m.build()
     seed = 0 if rng.integers(0, 3) == 0 else int(rng.integers(0, 2**31))
-    case = {"part": "C", "model": m.describe(), "n": n, "seed": seed}
+    return {"part": "C", "model": m.describe(), "n": n, "seed": seed}
+
+
+def process_joint_stat(ck, case):
+    m = models.fam_model_from_desc(case["model"])
+    model = m.build()
+    n, seed = case["n"], case["seed"]
     ck.case(case, nontrivial=m.n_dependent() >= 1, sample=False)
     ck.count("part=C-joint")
     with np.errstate(all="ignore"), warnings.catch_warnings():
@@ -252,22 +388,7 @@ def process_joint_stat(ck, rng, n):
                 ci = m.cond[i]
                 U[:, i] = model.distributions[i].cdf(x[:, i]) if ci is None else \
                     model.distributions[i].cdf(x[:, i], given=x[:, ci])
-            eps = dkw_eps(n)
-            for i in range(m.n_dim):
-                d = ks_uniform(U[:, i])
-                ck.hyp_checked += 1
-                if d > eps:
-                    bad.append(("drawn_from_conditional_given_same_row",
-                                f"dimension {i} (conditional on {m.cond[i]}): PIT KS {d:.4f} > {eps:.4f}"))
-            # independence of PIT columns on a 4x4 partition (Hoeffding per cell, union over 16 cells)
-            t = math.sqrt(math.log(2 * 16 / DELTA) / (2 * n))
-            for i in range(m.n_dim):
-                for k in range(i + 1, m.n_dim):
-                    H, _, _ = np.histogram2d(U[:, i], U[:, k], bins=4, range=[[0, 1], [0, 1]])
-                    dev = float(np.max(np.abs(H / n - 1 / 16)))
-                    ck.hyp_checked += 1
-                    if dev > t + 2 * eps:
-                        bad.append(("rosenblatt_columns_independent", f"dims {i},{k}: cell deviation {dev:.4f} > {t + 2*eps:.4f}"))
+            bad += pit_failures(ck, U, m.cond, x)
             g1 = np.asarray(model.draw_sample(n, random_state=np.random.default_rng(seed)))
             g2 = np.asarray(model.draw_sample(n, random_state=np.random.default_rng(seed)))
             if not (np.array_equal(x, np.asarray(model.draw_sample(n, random_state=seed))) and np.array_equal(g1, g2)):
@@ -278,19 +399,493 @@ def process_joint_stat(ck, rng, n):
         ck.fail({"entry": "GlobalHierarchicalModel.draw_sample", "predicate": pred}, case, detail)
 
 
+# --------------------------------------------------------------------------- (D) every family in joint sampling
+
+def _ext_classes():
+    from virocon.distributions import (LogNormalNormFitDistribution, ScipyDistribution, VonMisesDistribution)
+
+    class GammaScipy(ScipyDistribution):
+        scipy_dist_name = "gamma"
+
+    class GumbelScipy(ScipyDistribution):
+        scipy_dist_name = "gumbel_r"
+
+    ext = {k: (models.V[v[0]], v[1]) for k, v in models.FAMILIES.items()}
+    ext["VonMises"] = (VonMisesDistribution, ["kappa", "mu"])
+    ext["LogNormalNormFit"] = (LogNormalNormFitDistribution, ["mu_norm", "sigma_norm"])
+    ext["ScipyGamma"] = (GammaScipy, ["a", "loc", "scale"])
+    ext["ScipyGumbel"] = (GumbelScipy, ["loc", "scale"])
+    return ext
+
+
+EXT = _ext_classes()
+NEW_FAMS = ["Normal", "VonMises", "LogNormalNormFit", "ScipyGamma", "ScipyGumbel"]
+REAL_VALUED = {"Normal", "VonMises", "ScipyGumbel"}                    # samples may be negative
+LOCATION = {("Normal", "mu"), ("VonMises", "mu"), ("ScipyGumbel", "loc"), ("LogNormal", "mu")}   # any real value is valid
+ALWAYS_FIXED = {("Weibull", "gamma"), ("ScipyGamma", "loc")}
+
+
+def ext_base_value(rng, fam, par):
+    u = rng.uniform
+    table = {
+        ("VonMises", "kappa"): lambda: u(0.5, 4.0),
+        ("VonMises", "mu"): lambda: u(-3.0, 6.0),
+        ("LogNormalNormFit", "mu_norm"): lambda: u(2.0, 8.0),
+        ("LogNormalNormFit", "sigma_norm"): lambda: u(0.5, 2.0),
+        ("ScipyGamma", "a"): lambda: u(0.8, 4.0),
+        ("ScipyGamma", "loc"): lambda: float(rng.choice([0.0, 0.5])),
+        ("ScipyGamma", "scale"): lambda: u(0.5, 2.0),
+        ("ScipyGumbel", "loc"): lambda: u(-2.0, 5.0),
+        ("ScipyGumbel", "scale"): lambda: u(0.5, 2.0),
+    }
+    if (fam, par) in table:
+        return float(table[(fam, par)]())
+    return models.base_value(rng, fam, par)
+
+
+def strong_dep(rng, level, q25, q50, q75, location, real_given):
+    """(kind, pars) of a dependence function that is positive, of the order of `level`, and changes by a factor of
+    about 2..5 between the lower and the upper quartile (q25, q75) of the conditioning variable, so that a sampler which
+    ignores, averages or permutes a vector parameter is visible in the within-group DKW test"""
+    u = rng.uniform
+    iqr = max(q75 - q25, 1e-3)
+    if (location or not real_given) and q25 > 0 and rng.integers(0, 2):
+        return "linear2", [level * u(0.2, 0.4), level * u(0.6, 1.2) / iqr]
+    return "logistics4", [level * u(0.3, 0.6), level * u(0.6, 1.2), u(3.0, 6.0) / iqr, q50]
+
+
+class ExtModel(models.FamModel):
+    """FamModel over all shipped families (EXT); parameters of row j are evaluated here, directly from the
+    dependence callables (vectorised), not by virocon"""
+
+    def build(self):
+        descs = []
+        for d in self.dims:
+            cls = EXT[d["family"]][0]
+            if d["cond"] is None:
+                descs.append({"distribution": cls(**{k: v[1] for k, v in d["params"].items()})})
+            else:
+                kw, pars = {}, {}
+                for name, spec in d["params"].items():
+                    if spec[0] == "fixed":
+                        kw["f_" + name] = spec[1]
+                    else:
+                        df = models.V["DependenceFunction"](models.DEP_FUNCS[spec[1]])
+                        df.parameters = dict(zip(df.parameters.keys(), spec[2]))
+                        pars[name] = df
+                descs.append({"distribution": cls(**kw), "conditional_on": d["cond"], "parameters": pars})
+        return models.V["GlobalHierarchicalModel"](descs)
+
+    def param_rows(self, i, g):
+        vals = {}
+        for name, spec in self.dims[i]["params"].items():
+            if spec[0] == "fixed":
+                vals[name] = spec[1]
+            else:
+                vals[name] = models.DEP_FUNCS[spec[1]](np.asarray(g, dtype=float), *spec[2])
+        return vals
+
+    def families(self):
+        return [d["family"] for d in self.dims]
+
+
+def pilot_quartiles(dims, c):
+    """quartiles of column c of the model made of the dimensions defined so far (only used to SHAPE a test input; any
+    outcome gives a valid model)"""
+    try:
+        with np.errstate(all="ignore"), warnings.catch_warnings():
+            warnings.simplefilter("ignore")
+            col = np.asarray(ExtModel(list(dims)).build().draw_sample(4000, random_state=0))[:, c]
+        q = [float(v) for v in np.quantile(col, [0.25, 0.5, 0.75])]
+        return q if np.all(np.isfinite(q)) and q[2] > q[0] else None
+    except Exception:
+        return None
+
+
+def ext_model_from_desc(desc):
+    return ExtModel(models.fam_model_from_desc(desc).dims)
+
+
+def random_ext_model(rng, n_dim, cond=None, must=None, role=None):
+    """random model over all families; `must` (a family) is placed in a random dimension, or, with role =
+    "conditional-all-dependent", in a conditional dimension all of whose free parameters get a dependence function
+    (every parameter reaches the family's sampler as a vector), or, with role = "conditioning", in a dimension that
+    another one is conditional on. A dimension conditional on a real-valued variable only gets dependence functions
+    that are defined (and positive where a positive parameter is required) for every real argument."""
+    if cond is None:
+        cond = doubles.random_structure(rng, n_dim)
+        if all(c is None for c in cond):
+            cond[n_dim - 1] = int(rng.integers(0, n_dim - 1))
+    fams = [str(rng.choice(list(EXT))) for _ in range(n_dim)]
+    pos = None
+    if must is not None:
+        # prefer a conditional dimension (vector parameters through ConditionalDistribution) two times out of three
+        conditional = [i for i in range(n_dim) if cond[i] is not None]
+        if role == "conditioning":
+            pos = int(rng.choice(sorted({c for c in cond if c is not None})))
+        elif role == "conditional-all-dependent" or (conditional and rng.integers(0, 3) > 0):
+            pos = int(rng.choice(conditional))
+        else:
+            pos = int(rng.integers(0, n_dim))
+        fams[pos] = must
+    dims = []
+    for i in range(n_dim):
+        fam = fams[i]
+        names = EXT[fam][1]
+        params = {}
+        if cond[i] is None:
+            for nme in names:
+                params[nme] = ("fixed", ext_base_value(rng, fam, nme))
+        else:
+            real_given = fams[cond[i]] in REAL_VALUED
+            quart = None
+            free = [nme for nme in names if (fam, nme) not in ALWAYS_FIXED]
+            forced = str(rng.choice(free))
+            for nme in names:
+                level = ext_base_value(rng, fam, nme)
+                if nme in free and (nme == forced or rng.integers(0, 3) > 0
+                                    or (role == "conditional-all-dependent" and i == pos)):
+                    if (fam, nme) in LOCATION:
+                        kinds = ["linear2", "logistics4", "exp3"] if real_given else ["lnsquare2", "linear2", "power3"]
+                        level = max(abs(level), 0.3)
+                    else:
+                        kinds = ["logistics4", "exp3"] if real_given else ["power3", "exp3", "asym3", "logistics4", "linear2"]
+                    kind = str(rng.choice(kinds))
+                    pars = models.random_dep_pars(rng, kind, level)
+                    if role == "conditional-all-dependent" and i == pos:
+                        if quart is None:
+                            quart = pilot_quartiles(dims, cond[i])
+                        if quart is not None:
+                            kind, pars = strong_dep(rng, level, *quart, (fam, nme) in LOCATION, real_given)
+                    params[nme] = ("dep", kind, [float(v) for v in pars])
+                else:
+                    params[nme] = ("fixed", level)
+        dims.append({"family": fam, "cond": cond[i], "params": params})
+    return ExtModel(dims)
+
+
+def ext_pit(m, model, x):
+    """Rosenblatt / PIT values of the sample rows; the parameters of row j are the dependence callables evaluated
+    at the row's own conditioning value (computed here), handed to the family's cdf; von Mises modulo 2 pi"""
+    U = np.empty_like(x)
+    for i, d in enumerate(m.dims):
+        tmpl = model.distributions[i] if d["cond"] is None else model.distributions[i].distribution
+        vals = m.param_rows(i, None if d["cond"] is None else x[:, d["cond"]])
+        xi = x[:, i]
+        if d["family"] == "VonMises":
+            mu = np.asarray(vals["mu"], dtype=float)
+            xi = np.mod(xi - mu + np.pi, 2 * np.pi) + mu - np.pi
+            U[:, i] = np.mod(np.asarray(tmpl.cdf(xi, **vals)), 1.0)
+        else:
+            U[:, i] = tmpl.cdf(xi, **vals)
+    return U
+
+
+def gen_ext_cases(rng, thorough):
+    big = 400000 if thorough else 100000     # the within-group DKW test needs ~25000 rows per group to see a 30 % scale error
+    # statistics: every family that the older parts do not sample jointly, in 2-D and 3-D, once as a conditional
+    # dimension with EVERY free parameter dependent (vector parameters through ConditionalDistribution; von Mises
+    # compared modulo 2 pi) and once as the conditioning variable of another dimension
+    for k, fam in enumerate(NEW_FAMS * (3 if thorough else 1)):
+        for role in ("conditional-all-dependent", "conditioning"):
+            n_dim = 2 + (k + int(rng.integers(0, 2))) % 2
+            m = random_ext_model(rng, n_dim, must=fam, role=role)
+            yield {"part": "D", "model": m.describe(), "n": big, "seed": int(rng.integers(0, 2**32)),
+                   "rs": str(rng.choice(["int", "generator"])), "must": fam, "role": role}
+    # random_state=None with statistics
+    for _ in range(6 if thorough else 2):
+        m = random_ext_model(rng, int(rng.choice([2, 3])))
+        yield {"part": "D", "model": m.describe(), "n": big, "seed": int(rng.integers(0, 2**32)), "rs": "none"}
+    # small n: shape + reproducibility, shipped families, 3-D chains and random structures
+    for k in range(90 if thorough else 30):
+        n_dim = int(rng.choice([2, 3, 3]))
+        cond = [None, 0, 1][:n_dim] if k % 3 == 0 else None
+        m = random_ext_model(rng, n_dim, cond=cond, must=NEW_FAMS[k % len(NEW_FAMS)] if k % 2 else None)
+        yield {"part": "D", "model": m.describe(), "n": int(rng.choice([1, 1, 2, 3])),
+               "seed": int(rng.choice([0, 1, 2**32 - 1])) if k % 10 == 0 else int(rng.integers(0, 2**32)),
+               "rs": str(rng.choice(["int", "generator", "none"])), "chain": cond is not None}
+
+
+def ext_domain_status(m, x):
+    """dimension by dimension (conditioning columns come first): "ok" if every row's parameters are finite, positive
+    where required and every sampled value is finite; "out-of-domain" if some row's parameters (evaluated here from the
+    finite conditioning values) leave the domain, e.g. exp() overflow far in a tail - then there is no law to compare
+    with; otherwise the detail of the failure (finite, in-domain parameters but a non-finite sample value)"""
+    for i, d in enumerate(m.dims):
+        if d["cond"] is not None:
+            for name, v in m.param_rows(i, x[:, d["cond"]]).items():
+                v = np.asarray(v, dtype=float)
+                if not np.all(np.isfinite(v)) or np.any(np.abs(v) > 1e6) or \
+                        ((d["family"], name) not in LOCATION | ALWAYS_FIXED and np.any(v <= 0)):
+                    return "out-of-domain"
+        if not np.all(np.isfinite(x[:, i])):
+            return f"dimension {i} ({d['family']}): non-finite values in the sample although every row's parameters are valid"
+    return "ok"
+
+
+def ext_failures(ck, m, model, n, seed, rs_kind):
+    bad = []
+    if rs_kind == "none":
+        a = np.asarray(model.draw_sample(n, random_state=None))
+        x = np.asarray(model.draw_sample(n, random_state=None))
+        ok_shape = a.shape == (n, m.n_dim) and x.shape == (n, m.n_dim)
+        if not ok_shape:
+            bad.append(("none_shape", f"random_state=None: shape {a.shape} / {x.shape}, expected {(n, m.n_dim)}"))
+        elif np.array_equal(a, x, equal_nan=True):
+            bad.append(("none_draws_differ", f"two draws with random_state=None are identical: {a.ravel()[:4].tolist()}"))
+    else:
+        rs = seed if rs_kind == "int" else np.random.default_rng(seed)
+        x = np.asarray(model.draw_sample(n, random_state=rs))
+        ok_shape = x.shape == (n, m.n_dim)
+        if not ok_shape:
+            bad.append(("shape_n_by_ndim", f"shape {x.shape} expected {(n, m.n_dim)}"))
+    if ok_shape:
+        status = ext_domain_status(m, x)
+        if status == "out-of-domain":
+            ck.count("D_parameters_out_of_domain_on_sample")
+        elif status != "ok":
+            bad.append(("sample_finite", status))
+        elif n >= 1000:
+            bad += pit_failures(ck, ext_pit(m, model, x), m.cond, x)
+            ck.count("D_statistics")
+    if ok_shape and rs_kind != "none":
+        first = x if rs_kind == "int" else np.asarray(model.draw_sample(n, random_state=seed))
+        if rs_kind == "generator" and not np.array_equal(
+                x, np.asarray(model.draw_sample(n, random_state=np.random.default_rng(seed))), equal_nan=True):
+            bad.append(("same_seed_reproduces", f"identically seeded Generator ({seed}), same object"))
+        if not np.array_equal(first, np.asarray(model.draw_sample(n, random_state=seed)), equal_nan=True):
+            bad.append(("same_seed_reproduces", f"int seed {seed}, same object"))
+        bad += reproducibility_failures(np.random.default_rng(seed), m.build, n, seed, first)
+    return bad
+
+
+def process_ext(ck, case):
+    m = ext_model_from_desc(case["model"])
+    n, seed, rs_kind = case["n"], case["seed"], case["rs"]
+    ck.case(case, nontrivial=m.n_dependent() >= 1, sample=n <= 3 and rs_kind != "none")
+    ck.count("part=D")
+    ck.count("D_rs=" + rs_kind)
+    ck.count("D_n=" + (str(n) if n <= 3 else "large"))
+    ck.count(f"D_n_dim={m.n_dim}")
+    if "role" in case:
+        ck.count(f"D_statistics_of={case['must']}/{case['role']}")
+    if case.get("chain"):
+        ck.count("D_small_n_chain")
+    for i, d in enumerate(m.dims):
+        ck.count("D_family=" + d["family"] + ("/conditional" if d["cond"] is not None else ""))
+        if d["cond"] is not None and m.dims[d["cond"]]["family"] in REAL_VALUED:
+            ck.count("D_conditional_on_real_valued")
+    bad = []
+    with np.errstate(all="ignore"), warnings.catch_warnings():
+        warnings.simplefilter("ignore")
+        model = m.build()
+        try:
+            bad = ext_failures(ck, m, model, n, seed, rs_kind)
+        except Exception as e:      # the models of this part have valid (finite, in-domain) parameters in every row
+            bad = [("draw_sample_raises_on_valid_model", f"{type(e).__name__}: {str(e)[:200]}")]
+    for pred, detail in bad:
+        ck.fail({"entry": "GlobalHierarchicalModel.draw_sample", "predicate": pred}, case, detail)
+
+
+# --------------------------------------------------------------------------- (E) univariate: small n, None, seed pairs
+
+def process_univariate_small(ck, rng):
+    for name, dist in univariate_families(rng):
+        for n in (1, 2, 3):
+            case = {"part": "E", "family": name, "parameters": {k: float(v) for k, v in dist.parameters.items()},
+                    "n": n, "seed": int(rng.integers(0, 2**32))}
+            process_univariate_small_case(ck, case, dist)
+
+
+def process_univariate_small_case(ck, case, dist=None):
+    dist = univariate_from_case(case) if dist is None else dist
+    ck.case(case, nontrivial=True, sample=False)
+    ck.count("part=E-univariate-small-n")
+    ck.count(f"E_n={case['n']}")
+    try:
+        bad = univariate_small_failures(np.random.default_rng(case["seed"]), dist, case["n"], case["seed"])
+    except Exception as e:
+        bad = [("draw_sample_raises_on_valid_model", f"{type(e).__name__}: {str(e)[:200]}")]
+    for pred, detail in bad:
+        ck.fail({"entry": "Distribution.draw_sample", "predicate": pred, "family": case["family"]}, case, detail)
+
+
+def univariate_small_failures(rng, dist, n, seed):
+    bad = []
+    x = np.asarray(dist.draw_sample(n, random_state=seed))
+    if x.shape != (n,):
+        return [("univariate_shape", f"shape {x.shape} for n={n}")]
+    if not np.all(np.isfinite(x)):
+        bad.append(("sample_finite", f"{x.tolist()}"))
+    g1 = np.asarray(dist.draw_sample(n, random_state=np.random.default_rng(seed)))
+    dist.draw_sample(n + 1, random_state=seed ^ 5)
+    g2 = np.asarray(dist.draw_sample(n, random_state=np.random.default_rng(seed)))
+    if not (np.array_equal(x, np.asarray(dist.draw_sample(n, random_state=seed))) and g1.shape == (n,)
+            and np.array_equal(g1, g2)):
+        bad.append(("same_seed_reproduces", f"n={n} seed={seed}"))
+    for t in seed_partners(rng, seed):
+        if np.array_equal(x, np.asarray(dist.draw_sample(n, random_state=t))):
+            bad.append(("different_seeds_differ", f"n={n}: seeds {seed} and {t} give identical samples"))
+            break
+    nb, _ = none_failures(lambda r: dist.draw_sample(n, random_state=r), (n,))
+    return bad + nb
+
+
+# --------------------------------------------------------------------------- (F) sampling from a FITTED model
+
+def _truth_sample(rng, n, which):
+    """data to fit: numpy only (no virocon sampling involved)"""
+    a, b, g = rng.uniform(2.0, 3.0), rng.uniform(1.4, 1.9), float(rng.choice([0.3, 0.5]))   # location > 0: the fitted location stays positive
+    x0 = g + a * rng.weibull(b, size=n)
+    mu = rng.uniform(0.8, 1.2) + rng.uniform(0.3, 0.5) * x0 ** 0.6
+    sig = 0.05 + rng.uniform(0.15, 0.25) * np.exp(-0.2 * x0)
+    tz = np.exp(mu + sig * rng.standard_normal(n))
+    if which in ("OMAE2020_V_Hs", "chain_V_Hs_Tz"):
+        x0 = 4.0 * x0                                        # wind-speed like (the slicer of that model is 2 wide)
+        al = rng.uniform(0.4, 0.7) + rng.uniform(0.03, 0.06) * x0 ** 1.3
+        be = rng.uniform(1.8, 2.2) + rng.uniform(1.0, 2.0) / (1.0 + np.exp(-0.4 * (x0 - rng.uniform(10.0, 14.0))))
+    else:
+        al = rng.uniform(1.5, 2.5) + rng.uniform(0.8, 1.2) * x0 ** 1.1
+        be = rng.uniform(1.8, 2.2) + 0.2 * x0
+    u2 = al * rng.weibull(1.0, size=n) ** (1.0 / be)
+    if which in ("DNVGL_Hs_Tz", "OMAE2020_Hs_Tz"):
+        return np.column_stack([x0, tz])
+    if which in ("DNVGL_Hs_U", "OMAE2020_V_Hs"):
+        return np.column_stack([x0, u2])
+    if which == "fork_Hs_U_Tz":
+        return np.column_stack([x0, u2, tz])
+    # chain V -> Hs|V -> Tz|Hs
+    mu3 = 1.0 + 0.4 * u2 ** 0.5
+    return np.column_stack([x0, u2, np.exp(mu3 + 0.15 * rng.standard_normal(n))])
+
+
+def _fit_descriptions(which):
+    import virocon.predefined as P
+
+    if which in ("DNVGL_Hs_Tz", "OMAE2020_Hs_Tz", "DNVGL_Hs_U", "OMAE2020_V_Hs"):
+        dd, fd, _ = getattr(P, "get_" + which)()
+        return dd, fd
+    if which == "fork_Hs_U_Tz":
+        d1, _, _ = P.get_DNVGL_Hs_U()
+        d2, _, _ = P.get_DNVGL_Hs_Tz()
+        return [d1[0], d1[1], d2[1]], None
+    d1, f1, _ = P.get_OMAE2020_V_Hs()
+    d2, f2, _ = P.get_OMAE2020_Hs_Tz()
+    d1[1]["intervals"] = d2[0]["intervals"]
+    tz = dict(d2[1])
+    tz["conditional_on"] = 1
+    return [d1[0], d1[1], tz], [f1[0], f1[1], f2[1]]
+
+
+FITTED = ["DNVGL_Hs_Tz", "OMAE2020_Hs_Tz", "DNVGL_Hs_U", "OMAE2020_V_Hs", "fork_Hs_U_Tz", "chain_V_Hs_Tz"]
+
+
+def fitted_pit(model, x):
+    """PIT of the rows under the law the FITTED model reports: unconditional dimensions from `.parameters`,
+    conditional ones from the fitted dependence functions' `.func` and `.parameters` evaluated here at the row's
+    conditioning value"""
+    U = np.empty_like(x)
+    valid = True
+    for i in range(model.n_dim):
+        dist, ci = model.distributions[i], model.conditional_on[i]
+        if ci is None:
+            fresh = type(dist)(**{k: float(v) for k, v in dist.parameters.items()})
+            U[:, i] = fresh.cdf(x[:, i])
+        else:
+            vals = dict(dist.fixed_parameters)
+            for name, dep in dist.conditional_parameters.items():
+                v = np.broadcast_to(np.asarray(dep.func(x[:, ci], *dep.parameters.values()), dtype=float), x[:, ci].shape)
+                valid = valid and bool(np.all(np.isfinite(v)))
+                vals[name] = v
+            U[:, i] = dist.distribution.cdf(x[:, i], **vals)
+    return U, valid
+
+
+def process_fitted(ck, case):
+    which, n, seed = case["which"], case["n"], case["seed"]
+    ck.case(case, nontrivial=True, sample=False)
+    ck.count("part=F-fitted")
+    GHM = models.V["GlobalHierarchicalModel"]
+    with np.errstate(all="ignore"), warnings.catch_warnings():
+        warnings.simplefilter("ignore")
+        data = _truth_sample(np.random.default_rng(case["data_seed"]), case["n_data"], which)
+
+        def build():
+            dd, fd = _fit_descriptions(which)
+            mdl = GHM(dd)
+            mdl.fit(data, fd)
+            return mdl
+
+        try:
+            model = build()
+        except Exception as e:      # a failing fit is not C07's subject
+            ck.count("F_fit_failed")
+            ck.extra.setdefault("F_fit_failed", []).append(f"{which}: {type(e).__name__}")
+            return "fit_failed"
+        bad = []
+        try:
+            x = np.asarray(model.draw_sample(n, random_state=seed))
+        except Exception as e:
+            # possible on the unchanged code when the fit left the parameter domain (e.g. a fitted Weibull location < 0
+            # makes x**c undefined): retried by the caller with new data, reported if it happens every time
+            ck.count("F_draw_raised")
+            ck.extra.setdefault("F_draw_raised", []).append(f"{which}: {type(e).__name__}: {str(e)[:80]}")
+            return "draw_raised"
+        if x.shape != (n, model.n_dim):
+            bad.append(("shape_n_by_ndim", f"shape {x.shape} expected {(n, model.n_dim)}"))
+        else:
+            U, valid = fitted_pit(model, x)
+            if not (valid and np.all(np.isfinite(x)) and np.all(np.isfinite(U))):
+                # the fitted dependence functions leave the parameter domain somewhere on the sample: no law to compare with
+                ck.count("F_fitted_parameters_invalid_on_sample")
+            else:
+                ck.count("F_statistics")
+                ck.count(f"F_n_dim={model.n_dim}")
+                bad += pit_failures(ck, U, list(model.conditional_on), x)
+            if not np.array_equal(x, np.asarray(model.draw_sample(n, random_state=seed)), equal_nan=True):
+                bad.append(("same_seed_reproduces", f"int seed {seed}, fitted model"))
+            g1 = np.asarray(model.draw_sample(n, random_state=np.random.default_rng(seed)))
+            g2 = np.asarray(build().draw_sample(n, random_state=np.random.default_rng(seed)))
+            if not np.array_equal(g1, g2, equal_nan=True):
+                bad.append(("generator_reproduces_across_objects", "two models fitted to the same data, identically seeded Generators"))
+            for t in seed_partners(np.random.default_rng(seed), seed):
+                if np.array_equal(x, np.asarray(model.draw_sample(n, random_state=t)), equal_nan=True):
+                    bad.append(("different_seeds_differ", f"seeds {seed} and {t}"))
+                    break
+            for k in (1, 2, 3):
+                xs = np.asarray(model.draw_sample(k, random_state=seed))
+                if xs.shape != (k, model.n_dim):
+                    bad.append(("shape_n_by_ndim", f"fitted model, n={k}: shape {xs.shape}"))
+                    break
+    for pred, detail in bad:
+        ck.fail({"entry": "GlobalHierarchicalModel.draw_sample", "predicate": pred, "input_class": "fitted model"},
+                case, detail)
+    return "ok"
+
+
 def main(ck):
     rng = np.random.default_rng(ck.seed)
     thorough = ck.tier == "thorough"
     ck.rule = ("(A) joint samples of random hierarchical models over inverse-transform doubles (every structure for n_dim "
                "2..4 once, then random; n in {1,2,3,17,100,1000[,20000]}; int and Generator seeds) compared bit for bit with "
                "the model on the replayed uniform stream; (B) _get_rvs_size on random scalar/vector parameter lists and "
-               "constant dependence functions; (C) DKW/Hoeffding tests of shipped families and joint models; non-trivial = "
-               "model with a dependent parameter and n >= 2; distinct by SHA1")
+               "constant dependence functions; (C) DKW/Hoeffding tests of shipped families (incl. LogNormalNormFit, two "
+               "ScipyDistribution subclasses; int seed, Generator, None) and joint models; (D) joint models over every family "
+               "(Normal, von Mises with vector parameters modulo 2 pi, LogNormalNormFit, ScipyDistribution subclasses; "
+               "dimensions conditional on real-valued variables) with n large (PIT, independently evaluated parameters) and "
+               "n in {1,2,3} (3-D chains), random_state None/int/Generator, second model object, object re-use, seed "
+               "pairs; (E) univariate n in {1,2,3}; (F) predefined 2-D/3-D models fitted to data, then sampled; "
+               "non-trivial = model with a dependent parameter and n >= 2 (A), a dependent parameter (C, D), every case "
+               "of E, F; distinct by SHA1")
     ck.assumptions = ["numpy Generator streams are reproducible and uniform() is consumed in call order",
                       "DKW / Hoeffding bounds at error probability 1e-12 per comparison"]
     ck.partial = {"distributional agreement of shipped-family samples": "statistics of numpy/scipy samplers; DKW-tested at runtime",
                   "independence of the Rosenblatt-transformed columns": "tested on a 4x4 partition at runtime",
-                  "different seeds give different samples": "observed"}
+                  "same integer seed / identically seeded Generator reproduces the sample": "observed (same object, second "
+                  "object, after an earlier draw, fitted model); no theorem - same_stream_same_sample_trivial is a definitional remark",
+                  "different seeds give different samples": "observed for pairs (s, s+1), (s, s with one far bit flipped), (s, random t)",
+                  "random_state=None": "observed: shape, finiteness, two draws differ, DKW statistics",
+                  "samples of a fitted model follow the fitted law": "DKW-tested at runtime against the parameters the model reports"}
     for case in structure_cases(rng):
         process_exact(ck, case)
     for case in gen_exact_cases(rng, 700 if thorough else 120, thorough):
@@ -300,13 +895,48 @@ def main(ck):
     n = 1000000 if thorough else 20000
     process_univariate(ck, rng, n)
     for _ in range(30 if thorough else 8):
-        process_joint_stat(ck, rng, 200000 if thorough else 20000)
+        process_joint_stat(ck, joint_stat_case(rng, 200000 if thorough else 20000))
+    for case in gen_ext_cases(rng, thorough):
+        process_ext(ck, case)
+    for _ in range(4 if thorough else 1):
+        process_univariate_small(ck, rng)
+    for which in FITTED * (3 if thorough else 1):
+        fitted_with_retries(ck, rng, which, 200000 if thorough else 20000)
+
+
+def fitted_with_retries(ck, rng, which, n):
+    """a fit that fails, or that leaves the parameter domain so that sampling raises, is retried with new data (the
+    truth is chosen such that this is rare); sampling that raises on EVERY fitted model is reported"""
+    statuses = []
+    for attempt in range(4):
+        case = {"part": "F", "which": which, "data_seed": int(rng.integers(0, 2**32)),
+                "n_data": int(rng.choice([6000, 10000])), "n": n, "seed": int(rng.integers(0, 2**32))}
+        statuses.append(process_fitted(ck, case))
+        if statuses[-1] == "ok":
+            return
+    if "draw_raised" in statuses:
+        ck.fail({"entry": "GlobalHierarchicalModel.draw_sample", "predicate": "fitted_model_can_be_sampled",
+                 "input_class": "fitted model"}, case,
+                f"{which}: {statuses}; " + "; ".join(ck.extra.get("F_draw_raised", [])[-2:]))
 
 
 def replay(ck, payload):
     case = payload["case"]
-    if case.get("part") == "A":
+    part = case.get("part")
+    if part == "A":
         process_exact(ck, case)
+    elif part == "D":
+        process_ext(ck, case)
+    elif part == "F":
+        if process_fitted(ck, case) == "draw_raised":
+            print("oracle: draw_sample raised on the fitted model:", ck.extra.get("F_draw_raised"))
+            return False
+    elif part == "C" and "model" in case:
+        process_joint_stat(ck, case)
+    elif part == "C" and "family" in case:
+        process_univariate_case(ck, case)
+    elif part == "E":
+        process_univariate_small_case(ck, case)
     else:
         process_constant_dependence(ck, np.random.default_rng(case.get("seed", 0)))
     for s, c, d in ck.failures:
